@@ -808,8 +808,8 @@ EmitCase ==
 \* its current parameters.  Named deviation StaleCacheAfterAssign (NEXT ReNextStale, Families.reassign_stale.deviation.cfg):
 \* an assignment keeps what was derived before - TLC must refute ReassignIsFresh (Evaluate . Assign).
 \* ReEmit: every terminal state (all units assigned) emits the start case, the order of the units and, after EVERY
-\* assignment of the order, the complete expected case of the mixed configuration (partial reassignment = prefixes; all
-\* orders = all permutations).  The replay realises the behaviours  A* E  (assign first, evaluate later),  E A* E  and
+\* assignment of the order, the complete expected case of the mixed configuration (partial reassignment = prefixes of the
+\* cyclic orders).  The replay realises the behaviours  A* E  (assign first, evaluate later),  E A* E  and
 \* (E A)* E  of this state graph on one real object.
 ReIdx == {"a", "b", "g"}
 ReU(names, idx) == [names |-> names, idx |-> idx]
@@ -841,12 +841,16 @@ ReMinIn(S) == CHOOSE w \in S : \A y \in S : w <= y
 ReTarget(FC, k) == [i \in ReIdx |-> ReNextIn(ReVals(FC, k, i), k[i])]
 \* start configurations: the genuinely vector-valued evaluation pattern (thorough: also the first constant one); three-unit
 \* families inside the support only; Markov random fields on the small grids with the first and the last location pattern
+\* (quick tier: first scale / precision only; Gaussian: first and last mean and diagonal pattern)
+ReEnds(FC, k, i) == {ReMinIn(ReVals(FC, k, i)), ReMaxIn(ReVals(FC, k, i))}
 ReSelect(FC, k) ==
     /\ k.x \in ({ReMaxIn(ReVals(FC, k, "x"))} \cup (IF Thorough THEN {ReMinIn(ReVals(FC, k, "x"))} ELSE {}))
     /\ (Len(ReUnits(k.fam)) = 3 => k.o = 0)
     /\ (k.fam \in {"GMRF", "LMRF", "CMRF"} =>
           /\ MrfDim(k.pd, k.dim) <= (IF Thorough THEN 5 ELSE 4)
-          /\ k.a \in {ReMinIn(ReVals(FC, k, "a")), ReMaxIn(ReVals(FC, k, "a"))})
+          /\ k.a \in ReEnds(FC, k, "a")
+          /\ (Thorough \/ k.b = ReMinIn(ReVals(FC, k, "b"))))
+    /\ (k.fam = "Gaussian" /\ ~Thorough => k.a \in ReEnds(FC, k, "a") /\ k.g \in ReEnds(FC, k, "g"))
 ReAllValid(k, tgt) == \A S \in SUBSET ReIdx : Valid(ReMix(k, tgt, S))
 ReStates(fam) ==
     LET FC == FamConfigs(fam)
@@ -861,11 +865,16 @@ ReCur(s) == ReCfgAfter(s, Len(s.re.done))
 ReEvaluate ==
     /\ c.re.cached = <<>>
     /\ c' = [c EXCEPT !.re.cached = <<ReCur(c)>>]
+\* orders of assignment: the cyclic rotations of the units (every unit is assigned first in one order and every proper subset
+\* of the units is the set of assigned units after a prefix of some order; two units: both orders)
+ReMayAssign(s, u) ==
+    /\ u \notin ReDoneSet(s)
+    /\ (IF s.re.done = <<>> THEN TRUE ELSE u = (s.re.done[Len(s.re.done)] % Len(ReUnits(s.fam))) + 1)
 ReAssign(u) ==
-    /\ u \notin ReDoneSet(c)
+    /\ ReMayAssign(c, u)
     /\ c' = [c EXCEPT !.re.done = Append(@, u), !.re.cached = <<>>]
 ReAssignStale(u) ==                               \* named deviation StaleCacheAfterAssign
-    /\ u \notin ReDoneSet(c)
+    /\ ReMayAssign(c, u)
     /\ c' = [c EXCEPT !.re.done = Append(@, u)]
 ReInit      == c \in UNION {ReStates(f) : f \in Fams \cap ReFamilies}
 ReNext      == ReEvaluate \/ \E u \in 1..Len(ReUnits(c.fam)) : ReAssign(u)
